@@ -119,12 +119,32 @@ Proof.
     constructor; [exact (model_step_shape _ _ _ _ E) | exact (IH _ _ E')].
 Qed.
 
+(* a case line that parses as an operation sequence is not a purity-probe line *)
+Lemma parse_case_not_purity c x : parse_case c = Some x -> is_purity_case c = false.
+Proof.
+  intros H. destruct (is_purity_case c) eqn:E; [|reflexivity]. exfalso.
+  unfold is_purity_case in E.
+  destruct c as [|t [|[|z1|] [|[|z2|] [|[|z3|] [|[|z4|] [|]]]]]]; try discriminate E.
+  destruct t as [|?|b]; try discriminate E. cbn [is_tag] in E. apply bytes_eqb_eq in E. subst b.
+  vm_compute in H. discriminate H.
+Qed.
+
+(* for every purity-probe line the model predicts PURE, and the SPEC entry point accepts that *)
+Theorem purity_line_meets_spec c : is_purity_case c = true -> run_spec c (run_model c) = [].
+Proof. intros H. unfold run_spec, run_model. rewrite H. reflexivity. Qed.
+
+Example purity_clauses_fire :
+  let c := [tag "PURITY"; TZ 8; TZ 4; TZ 100; TZ 3] in
+  is_purity_case c = true /\ run_spec c [tag "RACE"; TB []] = fail "purity:data_race" /\
+  run_spec c [tag "DIFFERS"; TB []] = fail "purity:result_differs".
+Proof. vm_compute. repeat split. Qed.
+
 (* for every case line: if the model produces an observation at all, the extracted SPEC entry
    point accepts that very line of tokens *)
 Theorem run_spec_accepts_run_model c h ops :
   parse_case c = Some (h, ops) -> model_case h ops <> None -> run_spec c (run_model c) = [].
 Proof.
-  intros Hc Hm. unfold run_spec, run_model. rewrite Hc.
+  intros Hc Hm. unfold run_spec, run_model. rewrite (parse_case_not_purity c _ Hc), Hc.
   destruct (model_case h ops) as [[o0 rs]|] eqn:E; [|congruence].
   assert (Forall2 (fun o r => shape o (snd r)) ops rs) as Hs.
   { unfold model_case in E. destruct (model_steps [from_header_ix h] ops) as [rs'|] eqn:E'; [|discriminate].
